@@ -19,7 +19,17 @@ Inductive tok :=
 | TFun (f : nat) | TLFun (f : nat)
 (* the <property> of <object> <id>: the property token carries the form and the property number *)
 | TThe | TOf | TObjProp (f : ofam) (pid : nat) | TKw (f : ofam) | TRawInt (z : Z) | TRawConst (k : nat) | TItemKw | TMenuProp (pid : nat)
-| TTheProp (k : thekind) (i : nat).      (* the <special property / date-time function / system property>, one token *)
+| TTheProp (k : thekind) (i : nat)       (* the <special property / date-time function / system property>, one token *)
+| TTheName (n : nat)                     (* the <names[n]>, one token *)
+| TName (n : nat).                       (* names[n], in  the <name> of <expression> *)
+
+(* the text of a property addressed by name: the text of the_name_node *)
+Definition the_name_text (name : string) : string :=
+  match assoc_str name ASSIGN_KNOWN_PROPERTIES with
+  | Some o => if String.eqb o "me" then name
+              else if starts_with "_" o || String.eqb o "tell_obj" then "the " ++ name else "the " ++ name ++ " of " ++ o
+  | None => if mem_str name VARIABLE_KNOWN_SYMBOLS then name else "the " ++ name
+  end.
 
 Definition render_tok (en : env) (t : tok) : string :=
   match t with
@@ -49,6 +59,8 @@ Definition render_tok (en : env) (t : tok) : string :=
   | TRawConst k => match nth k (e_consts en) (CInt 0) with CStr s => s | CInt z => str_of_int z end   (* ... or a pool constant *)
   | TItemKw => "menuItem"
   | TMenuProp pid => nth pid MENUITEM_PROPERTIES ""
+  | TTheName n => the_name_text (nm en n)
+  | TName n => nm en n
   | TTheProp k i =>
     let name := nth i (the_table k) "" in
     match k with
@@ -109,6 +121,8 @@ Fixpoint pp_tok (en : env) (e : expr) {struct e} : list tok :=
     [TThe; TSp; TMenuProp pid; TSp; TOf; TSp; TItemKw; TSp] ++ raw_or it (pp_tok en it) ++
     [TSp; TOf; TSp; TKw FMenuName; TSp] ++ raw_or mn (pp_tok en mn)
   | EThe k i => [TTheProp k i]
+  | ETheN n => [TTheName n]
+  | EAcc n x => [TThe; TSp; TName n; TSp; TOf; TSp] ++ pp_tok en x
   end.
 
 (* ---- the parser ---- *)
@@ -201,6 +215,8 @@ Fixpoint parse_u (fuel : nat) (ts : list tok) {struct fuel} : option (expr * lis
       match args_loop parse_e f r with Some (es, TRP :: r') => Some (ELCall fn es, r') | _ => None end
     | TLFun fn :: r => Some (ELCall fn [], r)
     | TTheProp k i :: r => Some (EThe k i, r)
+    | TTheName n :: r => Some (ETheN n, r)
+    | TThe :: TName n :: TOf :: r => match parse_u f r with Some (x, r') => Some (EAcc n x, r') | None => None end
     | TLB :: TColon :: TRB :: r => Some (EPList [], r)
     | TLB :: TRB :: r => Some (EList [], r)
     | TThe :: TObjProp fam pid :: TOf :: r =>
